@@ -118,6 +118,40 @@ open RegexVerif.Compat RegexVerif.Utf8 RegexVerif.Lemmas.Compat
 example : WF (decoded exSegs) := exSegs_wf
 example : EnginesAgree (decoded exSegs) exAns exFF := exAgree
 
+/-- **The loops of this model are the loops of C07's model.**  When regexp2's sequence is the
+    `iterate` of a `Scan.Engine` (the scan loop of `Runner.scan` iterated by `FindNextMatch`), what
+    `forEachStringMatch` hands to its callback is `Scan.compatAll` and what regexp2's
+    `FindAllRunesIndex` returns is `Scan.findAll` — so `compat_all_eq_std` and C07's theorems about
+    `iterate` speak about the sequence the method theorems below start from. -/
+theorem find_all_loops_eq_scan_model (E : Engine) (n : Nat) (a : Ans) (he : a.err = false)
+    (h : a.ms.map (hitOf a.rtl) = iterate E a.rtl n) (k : Int) :
+    (forEachStringMatch a k fun m => Res.ok (m.index, m.index + m.len)).map nilIfEmpty = .ok (compatAll E a.rtl n k) ∧
+    must (r2FindAllRunesIndex a k) = .ok (findAll E a.rtl n k) := by
+  have hd := delivered_eq_scan E a.rtl n a.ms h k
+  have hmap : (delivered a.rtl a.ms k).map (fun m => (m.index, m.index + m.len)) =
+      (compatForEach E a.rtl n k).map fun m => (m.index, m.index + m.len) := by
+    rw [← hd, List.map_map]; rfl
+  constructor
+  · rw [forEach_closed a he k _ (fun m => (m.index, m.index + m.len)) (fun _ _ => rfl), map_ok, hmap]
+    unfold compatAll
+    by_cases hk : k = 0
+    · subst hk
+      have : compatForEach E a.rtl n 0 = [] := by rw [← hd, delivered_zero]; rfl
+      simp [this, nilIfEmpty_nil]
+    · rw [if_neg hk]; rfl
+  · unfold r2FindAllRunesIndex
+    rw [r2FindAll_closed a he, hmap, Lemmas.Scan.findAll_eq_spec, ← Lemmas.Scan.compatAll_eq_spec]
+    unfold compatAll
+    by_cases hk : k = 0
+    · subst hk
+      have : compatForEach E a.rtl n 0 = [] := by rw [← hd, delivered_zero]; rfl
+      simp [this, nilIfEmpty_nil]
+    · rw [if_neg hk]; rfl
+
+-- `a*` on "baa", left to right: the sequence of `exEngine exL` is (0,0), (1,2), (3,0)
+example : ([⟨0, 0, []⟩, ⟨1, 2, []⟩, ⟨3, 0, []⟩] : List RMatch).map (hitOf false) = iterate (Lemmas.Scan.exEngine Lemmas.Scan.exL) false 3 := by
+  decide
+
 /-- **`Match`, `MatchString`.**  "Reports whether the byte slice / string contains any match": the
     adapter answers what the standard library answers. -/
 theorem match_methods_eq_std (d : List (Int × Nat)) (a : Ans) (ff : Nat → Option SMatch) (h : EnginesAgree d a ff) :
